@@ -603,4 +603,22 @@ def writeDf (ver : Nat) (deflate : List UInt8 → List UInt8) (items : List Item
     ++ concatBytes (items.map itemBytes)
     ++ concatBytes stored
 
+/-- executable form of the round-trip statement for one input: the written file is accepted and
+every item and every data block comes back as stored -/
+def roundTripOk (ver : Nat) (deflate : List UInt8 → List UInt8)
+    (inflate : Nat → List UInt8 → Option (List UInt8)) (items : List Item)
+    (datas : List (List UInt8)) : Bool :=
+  match Reader.new (writeDf ver deflate items datas) with
+  | .ok r =>
+    decide (r.numItems = items.length) && decide (r.numData = datas.length)
+      && (List.range items.length).all (fun k =>
+            match r.item k, items[k]? with
+            | .ok v, some it => v.typeId == it.typeId && v.id == it.id && v.data == it.data
+            | _, _ => false)
+      && (List.range datas.length).all (fun i =>
+            match r.readData inflate i, datas[i]? with
+            | .ok out, some d => out == d
+            | _, _ => false)
+  | _ => false
+
 end Tw.Datafile
